@@ -114,9 +114,18 @@ def check_slow_path_guard(ctx, db, config, RULE='O7'):
                 continue
             seen.add((cb['id'], bi))
             n7 += 1
-            J, r = arena.run_fn(ctx, cb['id'], config)
-            ce = [e for e in r.events if e.kind == 'call' and len(e.stack) == 1 and e.block == bi]
             fn = arena.short(cb['id'])
+            if cb['kind'] == 'closure' and '::{closure' in cb['id']:
+                # the call sits in a closure (`fast(..).or_else(|| slow(..))`): it is judged where the closure runs, in
+                # the function that owns it, under the facts of the combinator's None / Err arm
+                pid = cb['id'][:cb['id'].index('::{closure')]
+                J, r = arena.run_fn(ctx, pid, config)
+                ce = [e for e in r.events if e.kind == 'call' and len(e.stack) >= 2 and e.stack[-1][0] == cb['id'] and e.block == bi]
+                depth = 1
+            else:
+                J, r = arena.run_fn(ctx, cb['id'], config)
+                ce = [e for e in r.events if e.kind == 'call' and len(e.stack) == 1 and e.block == bi]
+                depth = 1
             okv = False
             if ce:
                 L = ce[0].args[1] if len(ce[0].args) > 1 else None
@@ -124,7 +133,7 @@ def check_slow_path_guard(ctx, db, config, RULE='O7'):
                     if f[0] == 'is' and f[2] == 'None':
                         # the value known to be None is the result of the bumping function for the same layout
                         for c2 in r.events:
-                            if c2.kind == 'call' and len(c2.stack) == 1 and c2.ret is not None and (c2.callee or '').endswith('::try_alloc_layout_fast') and len(c2.args) > 1 and c2.args[1] == L:
+                            if c2.kind == 'call' and len(c2.stack) == depth and c2.ret is not None and (c2.callee or '').endswith('::try_alloc_layout_fast') and len(c2.args) > 1 and c2.args[1] == L:
                                 if f[1] == c2.ret or c2.ret in subterms(f[1]) or f[1] in subterms(c2.ret):
                                     okv = True
             if okv:
@@ -141,7 +150,10 @@ def runner_sub(ctx, rule, origin):
 
 # private helpers and the public method they serve (used when the helper no longer exists as a function): name -> (caller, amount reserved there)
 INLINED_INTO = {'append_elements': ('append', ('load', ('fld', ('deref', ('param', 2)), 'collections::vec::Vec.len'), 0)),
-                'extend_with': ('resize', ('app', 'wsub', ('param', 2), ('load', ('fld', ('deref', ('param', 1)), 'collections::vec::Vec.len'), 0)))}
+                'extend_with': ('resize', ('app', 'wsub', ('param', 2), ('load', ('fld', ('deref', ('param', 1)), 'collections::vec::Vec.len'), 0))),
+                # merged into insert_str: the bytes are string.as_bytes(), so the amount is its length (the term of that call is
+                # looked up in the analysed body, see O8)
+                'insert_bytes': ('insert_str', 'len-of-as_bytes(param 3)')}
 
 
 def run(ctx, config='rel-all'):
@@ -207,15 +219,24 @@ def run(ctx, config='rel-all'):
     I, res, body = val
     fsz = I.size_of('ChunkFooter')
     ff = [e for e in res.events if e.kind == 'call' and e.callee == 'core::iter::sources::from_fn::from_fn']
-    if not ff:
-        ctx.violation('O3', 'slow path', 'generator', 'the slow path has no candidate generator (iter::from_fn)')
+    hl = [] if ff else arena.halving_loops(res)
+    if not ff and not hl:
+        ctx.violation('O3', 'slow path', 'generator', 'the slow path has no candidate search (neither an iter::from_fn generator nor a loop that halves a size)')
+    F = ('load', ('fld', ('deref', ('param', 1)), 'Bump.current_chunk_footer'), 0)
+    doubling = app('mul', ('app', 'wsub', app('size', arena.loadf(F, 'layout')), fsz), C(2))
+    for key, rec, l in hl:
+        # the search written as a plain loop: the loop variable starts at the first candidate and is only ever halved
+        v0 = rec['init'].get(l)
+        if v0 is not None and v0[0] == 'app' and v0[1] == 'max' and doubling in set(v0[2:]) and app('size', ('param', 2)) in set(v0[2:]):
+            ctx.ok('O3', 'first candidate = max(2*(size(cur.layout) - FOOTER_SIZE), size(request), default)', show(v0)[:120])
+        else:
+            ctx.violation('O3', arena.short(key[0]), 'first-candidate', 'the initial candidate size of the slow path is not max(2 * usable size of the current chunk, size(request), ..): growth would not be geometric', body.get('span'))
+        ctx.ok('O3', 'later candidates only halve (%d back edge(s) base := base/2)' % len(rec['step']), show(rec['sym'][l])[:60])
     for e in ff:
         clo = e.args[0]
         cid = clo[1][len('closure:'):] if clo[0] == 'agg' else None
         from ..stdmodel import _mutated_upvars
         mut = _mutated_upvars(I, cid) if cid else set()
-        F = ('load', ('fld', ('deref', ('param', 1)), 'Bump.current_chunk_footer'), 0)
-        doubling = app('mul', ('app', 'wsub', app('size', arena.loadf(F, 'layout')), fsz), C(2))
         found = False
         for name, up in (clo[3] if clo[0] == 'agg' else ()):
             idx = int(name[5:])
@@ -238,6 +259,7 @@ def run(ctx, config='rel-all'):
             else:
                 ctx.violation('O3', arena.short(cid), 'candidate-update', 'the candidate size is updated by something other than halving: %s' % [show(s.val)[:40] for s in sts], body.get('span'))
     # chunk at least as large as its candidate
+    hsyms = {rec['sym'][l] for key, rec, l in hl}
     for e in res.events:
         if e.kind == 'store' and arena.footer_agg(e):
             A_, aggv = arena.footer_agg(e)
@@ -248,7 +270,7 @@ def run(ctx, config='rel-all'):
                 rest = dict(d)
                 del rest[g]
                 nn = from_lin(rest, c)
-                cands = [t for t in subterms(nn) if isinstance(t, tuple) and t and t[0] == 'opaque' and str(t[2]).startswith('captured')]
+                cands = [t for t in subterms(nn) if isinstance(t, tuple) and t and t[0] == 'opaque' and (str(t[2]).startswith('captured') or t in hsyms)]
                 if cands and all(P.le(cnd, nn) for cnd in cands):
                     ctx.ok('O3', 'the chunk obtained is at least as large as the candidate size it was built from', 'le(candidate, n)')
                 else:
@@ -345,6 +367,9 @@ def run(ctx, config='rel-all'):
                 continue
             J, r = arena.run_fn(ctx, bs[0]['id'], config)
             rs = [e for e in r.events if e.kind == 'call' and len(e.stack) == 1 and (e.callee or '').endswith('::reserve')]
+            if want == 'len-of-as_bytes(param 3)':
+                ab = [e for e in r.events if e.kind == 'call' and len(e.stack) == 1 and (e.callee or '').endswith('::as_bytes') and e.args and e.args[0] == P3 and e.ret is not None]
+                want = app('len', ab[0].ret) if ab else app('len', P3)
             n8 += 1
             fn = '%s::%s' % (adt.split('::')[-1], name)
             if len(rs) == 1 and rs[0].args[-1] == want:
